@@ -2,8 +2,49 @@
 (* Model-checking / generation harness for Analyzer: invariants of M, M |= R   *)
 (* (Scoping, UsageRules), and one CASE line per complete program (B1).         *)
 EXTENDS Analyzer, Json
+(* NB: CaseRec is defined after Req *)
 
-CaseRec == [prog |-> prog, syms |-> syms, diags |-> diags, skel |-> out[1], panic |-> panicked]
+(***************************************************************************)
+(* M |= R: the requirement specs read the program `prog` on their own and   *)
+(* the machine spec's state must agree with them.                           *)
+(***************************************************************************)
+R == INSTANCE AnalyzerReq WITH StdLib <- StdGates
+Req == R!Run(prog)
+
+(* C07 Scoping: every name resolves, in the machine's table, to the declaration R prescribes *)
+ScopingOn(r) ==
+    /\ \A n \in Names \cup {"U", "pi", "h", "cx", "rx"} : Find(stack, n) = R!Resolve(r, n).ord
+    /\ Len(syms) = r.ord
+    /\ Cardinality({i \in 1..Len(diags) : diags[i] = "RedeclarationError"}) = r.redecl
+    /\ Cardinality({i \in 1..Len(diags) : diags[i] \in {"UndefVarError", "UndefGateError"}}) = r.undef
+ScopingHolds == ~panicked => ScopingOn(Req)
+
+(* C13 UsageRules: for every kind the number of diagnostics lies in the required interval *)
+Count(k) == Cardinality({i \in 1..Len(diags) : diags[i] = k})
+UsageOn(r) == \A k \in R!Kinds13 : r.need[k].min <= Count(k) /\ Count(k) <= r.need[k].max
+UsageHolds == ~panicked => UsageOn(Req)
+
+(* C06 AsgShape: statement kinds, nesting and order *)
+RECURSIVE ShapeOfM(_), ShapeList(_)
+ShapeList(l) == [i \in 1..Len(l) |-> ShapeOfM(l[i])]
+ShapeOfM(n) ==
+  CASE n[1] = "DeclareClassical" -> "decl" [] n[1] = "DeclareQuantum" -> "qdecl" [] n[1] = "Assignment" -> "assign"
+    [] n[1] = "GateCall" -> "gatecall" [] n[1] = "ExprStmt" -> "exprstmt" [] n[1] = "Reset" -> "reset" [] n[1] = "Barrier" -> "barrier"
+    [] n[1] = "Delay" -> "delay" [] n[1] = "Break" -> "break" [] n[1] = "Pragma" -> "pragma"
+    [] n[1] = "If" -> <<"if", ShapeList(n[3]), n[4], ShapeList(n[5])>>
+    [] n[1] = "While" -> <<"while", ShapeList(n[3])>>
+    [] n[1] = "For" -> <<"for", ShapeList(n[4])>>
+    [] n[1] = "GateDefinition" -> <<"gate", ShapeList(n[5])>>
+    [] n[1] = "DefStmt" -> <<"def", ShapeList(n[4])>>
+    [] n[1] = "Annotated" -> <<"annotated", ShapeOfM(n[2])>>
+ShapeOn(r) == [i \in 1..Len(out) |-> ShapeList(out[i])] = r.shape
+AsgShapeHolds == ~panicked => ShapeOn(Req)
+(* all three with the program read once *)
+MSatisfiesR == ~panicked => LET r == Req IN ScopingOn(r) /\ UsageOn(r) /\ ShapeOn(r)
+
+CaseRec == LET r == Req IN
+           [prog |-> prog, syms |-> syms, diags |-> diags, skel |-> out[1], panic |-> panicked,
+            need |-> r.need, undef |-> r.undef, redecl |-> r.redecl, nsyms |-> r.ord]
 Emit == Complete => PrintT(<<"CASE", ToJson(CaseRec)>>)
 (* in simulation mode only long programs are printed *)
 EmitLong == (Complete /\ Len(prog) >= MaxStmts - 1) => PrintT(<<"CASE", ToJson(CaseRec)>>)
